@@ -70,7 +70,7 @@ func (w *tdWorld) add(kind, site, f string, a ...any) {
 	w.viols = append(w.viols, viol{kind, site, fmt.Sprintf(f, a...)})
 }
 
-func newTDWorld(e *kenv, k kase) *tdWorld {
+func newTDWorld(e *kenv, k kase, padtRetries int) *tdWorld {
 	w := &tdWorld{e: e, k: k}
 	e.clear()
 	w.natM = e.natManager(1)
@@ -82,7 +82,7 @@ func newTDWorld(e *kenv, k kase) *tdWorld {
 	}
 	w.pool = p
 	cfg := pppoe.DefaultTeardownConfig()
-	cfg.PADTRetries = 0 // no retry delay: the PADT is captured, not transmitted
+	cfg.PADTRetries = padtRetries // Engine A: 0 (no retry delay; the PADT is captured, not transmitted)
 	w.td = pppoe.NewSessionTeardown(cfg, zap.NewNop())
 	w.td.SetIPPool(p)
 	w.td.SetSessionManager(w.sm)
@@ -162,7 +162,7 @@ func (w *tdWorld) establish(c *tdSub, prefix string) {
 }
 
 func runTeardown(e *kenv, k kase) (res result) {
-	w := newTDWorld(e, k)
+	w := newTDWorld(e, k, 0)
 	if w.rs != nil {
 		defer w.rs.close()
 	}
